@@ -76,15 +76,64 @@ fn norm(ss: &libc::sockaddr_storage) -> Option<(Vec<u8>, u16)> {
 }
 
 fn max_fd() -> RawFd {
+    static LAST: std::sync::atomic::AtomicI32 = std::sync::atomic::AtomicI32::new(64);
     let mut m = 64;
-    if let Ok(rd) = std::fs::read_dir("/proc/self/fd") {
-        for e in rd.flatten() {
-            if let Some(n) = e.file_name().to_str().and_then(|s| s.parse::<RawFd>().ok()) {
-                m = m.max(n);
+    match std::fs::read_dir("/proc/self/fd") {
+        Ok(rd) => {
+            for e in rd.flatten() {
+                if let Some(n) = e.file_name().to_str().and_then(|s| s.parse::<RawFd>().ok()) {
+                    m = m.max(n);
+                }
             }
+            LAST.store(m, Ordering::Relaxed);
         }
+        // out of descriptors (see `exhaust_fds`): what was seen last
+        Err(_) => m = LAST.load(Ordering::Relaxed),
     }
     m
+}
+
+/// While this guard lives the process cannot get a new file descriptor: RLIMIT_NOFILE is lowered to the
+/// highest open descriptor + 1 and every hole below is filled with duplicates of fd 0 - so `accept()`
+/// on a listener with a pending connection fails with EMFILE (a real accept error on a healthy
+/// loopback). Dropping it closes the duplicates and restores the limit.
+pub struct FdExhaust {
+    old: libc::rlimit,
+    dups: Vec<RawFd>,
+}
+
+pub fn exhaust_fds() -> Option<FdExhaust> {
+    unsafe {
+        let mut old: libc::rlimit = std::mem::zeroed();
+        if libc::getrlimit(libc::RLIMIT_NOFILE, &mut old) != 0 {
+            return None;
+        }
+        let m = max_fd();
+        let new = libc::rlimit { rlim_cur: (m + 1) as libc::rlim_t, rlim_max: old.rlim_max };
+        if libc::setrlimit(libc::RLIMIT_NOFILE, &new) != 0 {
+            return None;
+        }
+        let mut dups = Vec::new();
+        loop {
+            let d = libc::dup(0);
+            if d < 0 {
+                break;
+            }
+            dups.push(d);
+        }
+        Some(FdExhaust { old, dups })
+    }
+}
+
+impl Drop for FdExhaust {
+    fn drop(&mut self) {
+        unsafe {
+            for d in self.dups.drain(..) {
+                libc::close(d);
+            }
+            libc::setrlimit(libc::RLIMIT_NOFILE, &self.old);
+        }
+    }
 }
 
 fn is_stream_socket(fd: RawFd) -> bool {
